@@ -291,3 +291,29 @@ def r18d(ctx):
             else:
                 ctx.bad(cid, mod.loc(c), f"read_parquet forwards the user's `{'/'.join(sorted(used))}` to {K.name}.{p}, which no method of {K.name} reads: the option is silently ignored by this reader while its sibling honours it")
     ctx.floor("reader options forwarded by read_parquet", n, 20)
+
+
+@rule(
+    "R18e",
+    ["C18", "C03", "C11"],
+    """A FILTER IS NOT ABSORBED INTO A READER WHOSE PARTITIONS ARE ALREADY SELECTED: reader filters prune the list of fragments (hive
+    directories whose partition value contradicts the predicate), and `_partitions` numbers index that list. Absorbing a filter after
+    the selection changes WHICH fragment a selected number names. ReadParquet._filter_passthrough_available must refuse when
+    `self._filtered` (or `_partitions`) is set: df.partitions[0][df.g != 2] returned the rows of another directory.""",
+)
+def r18e(ctx):
+    model = ctx.model
+    c = model.cls("ReadParquet", "io.parquet")
+    n = 0
+    for k in [c] + [h for h in model.subclasses(c, strict=True)]:
+        mem = k.members.get("_filter_passthrough_available")
+        if mem is None or mem.kind == "attr":
+            continue
+        n += 1
+        t = ast.unparse(mem.node)
+        cid = f"{k.qual}._filter_passthrough_available:selected-partitions"
+        if "self._filtered" in t or "self._partitions" in t or "operand('_partitions')" in t:
+            ctx.ok(cid, k.module.loc(mem.node), "refuses to absorb filters once partitions are selected")
+        else:
+            ctx.bad(cid, k.module.loc(mem.node), f"{k.qual} absorbs a filter whatever `_partitions` holds: the filter prunes the fragment list the selected numbers index, so a partition selection followed by a filter on a hive-partition column reads another directory (or indexes past the pruned list)")
+    ctx.floor("reader filter pass-through tests", n, 1)
